@@ -272,6 +272,10 @@ fn mode_aarch(seed: u64, n: usize, dir: &Utf8Path) {
         if let Some(od) = &outdir { debug.push(("build".into(), Node::Dir(vec![("pk-00ff".into(), Node::Dir(vec![("out".into(), od.clone()), ("output".into(), Node::File(b"cargo:rustc-link-search=x\n".to_vec()))]))]))); }
         top.push(("debug".into(), Node::Dir(debug)));
         for i in 0..n_inc { top.push((format!("inc{i}"), if rng.chance(1, 6) { Node::File(b"top-level include file".to_vec()) } else { let t = gen_node(&mut rng, 4, &mut tag); match t { Node::Dir(_) => t, o => Node::Dir(vec![("single".into(), o)]) } })); }
+        // a target directory that was itself the destination of an earlier extraction: stale copies of the archive's own
+        // metadata files lie where the new archive puts its fresh ones
+        let stale = rng.chance(1, 3);
+        if stale { top.push(("nextest".into(), Node::Dir(vec![("binaries-metadata.json".into(), Node::File(b"STALE{".to_vec())), ("cargo-metadata.json".into(), Node::File(b"STALE{".to_vec())), ("kept.txt".into(), Node::File(b"kept".to_vec()))]))); }
         let tree = Node::Dir(top);
         materialize(&tgt, &tree);
         // includes
@@ -316,6 +320,12 @@ fn mode_aarch(seed: u64, n: usize, dir: &Utf8Path) {
                 let is_other = matches!(cur, Node::Other);
                 if !(is_dir && eff_depth == 0) && !is_other { inc_lines.push((format!("target/{}", comps.join("/")), src(&format!("target/{}", comps.join("/")), eff_depth, cur))); }
             }
+        }
+        if stale && rng.chance(3, 4) {
+            // an include that covers the stale metadata files
+            cfg.push_str("[[profile.default.archive.include]]\npath = \"nextest\"\nrelative-to = \"target\"\n");
+            if let Some(nd) = lookup(&tree, &["nextest"]) { inc_lines.push(("target/nextest".into(), src("target/nextest", 16, nd))); }
+            *dist.entry("stale-metadata-included".into()).or_insert(0) += 1;
         }
         for (_, s) in &inc_lines { srcs.push(s.clone()); }
         *dist.entry(format!("includes:{}", n_rules)).or_insert(0) += 1;
@@ -364,7 +374,10 @@ fn mode_aarch(seed: u64, n: usize, dir: &Utf8Path) {
                 // contents byte for byte
                 let mut bad = Vec::new();
                 for (p, k) in &leaves {
-                    if *k == 'f' && !p.starts_with("target/nextest/") {
+                    if *k == 'f' && (p == "target/nextest/binaries-metadata.json" || p == "target/nextest/cargo-metadata.json") {
+                        // the archive's own metadata must be what this run wrote, never a stale file picked up from the target directory
+                        if std::fs::read(dest.join(p)).ok().as_deref() == Some(b"STALE{") { bad.push(format!("{p} (stale copy from the target directory won over the fresh metadata)")); }
+                    } else if *k == 'f' {
                         let srcp = tgt.join(p.strip_prefix("target/").unwrap_or(p));
                         if std::fs::read(dest.join(p)).ok() != std::fs::read(&srcp).ok() { bad.push(p.clone()); }
                     }
